@@ -324,7 +324,7 @@ ob('wrapper::c17_nvm_create_layout', ['C17', 'C18'], ['wrapper::NvmAlloc::create
 ob('wrapper::c17_nvm_recover_header', ['C17'], ['wrapper::NvmAlloc::create'], kind='config-bounded', bound='zone of 8 frames, ANY header contents (magic, frame count)')
 ob('trees::l0_trees_metadata_size', ['C18', 'C08'], ['trees::Trees::metadata_size'], bound='frames <= 2^44, against an independent ceil-division spec', cover=False)
 ob('local::l0_locals_metadata_size', ['C18', 'C08'], ['local::Locals::metadata_size'], bound='three classes with up to 64 slots each', cover=False)
-ob('local::l1b_locals_steal_any_3_1_0', ['C09', 'C13', 'C18'], ['local::Locals::steal_any'], tier='thorough', kind='config-bounded', timeout=1500,
+ob('local::l1b_locals_steal_any_3_1_0', ['C18'], ['local::Locals::steal_any'], tier='quick', kind='config-bounded', timeout=1500,
    bound='classes with (3,1,0) slots (requester slot index beyond the slot count of the target class)', cover=False)
 ob('local::l1b_locals_demote_any_3_0_1', ['C09', 'C13', 'C18'], ['local::Locals::demote_any'], tier='thorough', kind='config-bounded', timeout=1500, bound='classes with (3,0,1) slots', cover=False)
 OBS[:] = [o for o in OBS if o['harness'] != 'l1b_locals_steal_any_2_1_0']
@@ -334,3 +334,12 @@ for _o in OBS:
         _o['cover'] = True
 ob('lower::l1b_lower_new_dispatch', ['C05', 'C06', 'C08', 'C18'], ['lower::Lower::new'], bound='frames = 600 (2 bitfields, 1 table), every init mode, every buffer length <= 512', cover=False,
    assumes=['lower::Lower::free_all / reserve_all / recover by recording stubs (their contracts: c06_*, c05_recover_*)'])
+
+# two-tree lower configuration (feature verif_nt2): recovery and initialisation index bitfields per tree
+for b in (5, 6, 8):
+    ob(f'lower::c05_recover_b{b}', ['C05'], ['lower::Lower::recover'], features=('verif_nt2',), kind='config-bounded',
+       bound=f'TWO trees: every frame count with {b} bitfields (({(b-1)*512}, {b*512}]), any persistent state', cover=False,
+       assumes=['bitfield::Bitfield::count_zeros (l1a_fill_count_zeros)', 'ghost zeros lemma Z2 (l1a_zeros_lemmas_o*)'])
+for name, b in (('c06_free_all', 5), ('c06_free_all', 8), ('c06_reserve_all', 6)):
+    ob(f'lower::{name}_b{b}', ['C06'], ['lower::Lower::' + name[4:]], features=('verif_nt2',), kind='config-bounded',
+       bound=f'TWO trees: every frame count with {b} bitfields', cover=False, assumes=['bitfield::Bitfield::fill / set by contract (l1a_fill_count_zeros, l1a_set_range)'])
